@@ -830,32 +830,54 @@ def c16_formats(run):
                 if k == "error":
                     acc.fail(f"{el.format}:{srepr(s)[:40]}", f"{type(r).__name__} escaped from the built-in checker: {r}")
         # registration histories on a scratch name
-        name = "x-verif-scratch"
         checkers = {"T": lambda v: True, "F": lambda v: False, "A": lambda v: v.startswith("a")}
         import itertools
-        el = Element(format=name)
-        for hist in itertools.chain.from_iterable(itertools.product(checkers, repeat=n) for n in range(0, 4)):
-            format_checker._callable_register.pop(name, None)
-            for step in hist:
-                format_checker.register(name)(checkers[step])
-            for v in ["abc", "xyz", "", 5, None, True, 1.5, ["a"], {"a": 1}]:
-                key = f"hist={''.join(hist) or '-'} value={v!r}"
+        # the register is keyed by the exact name: names differing from a registered one only by case, surrounding space or
+        # Unicode compatibility form are *unregistered* (accept + one warning), and a checker registered under such a name is used
+        for odd in ["UUID", "Uuid", "Date-Time", "DATE-TIME", " uuid", "uuid ", "\uff55uid"]:
+            format_checker._callable_register.pop(odd, None)
+            elx = Element(format=odd)
+            for v in ["not-a-uuid", "nope", ""]:
+                key = f"unregistered look-alike {odd!r} value={v!r}"
                 acc.case(key)
                 with warnings.catch_warnings(record=True) as wl:
                     warnings.simplefilter("always")
-                    k, r = outcome(el, copy.deepcopy(v))
+                    k, r = outcome(elx, v)
                 nwarn = len([x for x in wl if issubclass(x.category, RuntimeWarning)])
-                if isinstance(v, str):
-                    want_ok = checkers[hist[-1]](v) if hist else True
-                    want_warn = 0 if hist else 1
-                else:
-                    want_ok, want_warn = True, 0
-                if (k == "ok") != want_ok:
-                    acc.fail(key, f"verdict {k}, expected {'accept' if want_ok else 'reject'} (last registered checker decides; non-strings never rejected)")
-                if nwarn != want_warn and isinstance(v, str):
-                    acc.fail(key, f"{nwarn} warning(s), expected {want_warn}")
-                if not isinstance(v, str) and nwarn:
-                    acc.fail(key, f"non-string value consulted the register ({nwarn} warnings)")
+                if k != "ok" or nwarn != 1:
+                    acc.fail(key, f"verdict {k} with {nwarn} warning(s); an unregistered format name never constrains (accept, one warning)")
+            format_checker.register(odd)(checkers["F"])
+            for v in ["abc", ""]:
+                key = f"registered under {odd!r} (always-false checker) value={v!r}"
+                acc.case(key)
+                k, r = outcome(elx, v)
+                if k == "ok":
+                    acc.fail(key, "accepted although the checker registered under exactly this name returns False")
+            format_checker._callable_register.pop(odd, None)
+        for name in ("x-verif-scratch", "X-Verif-Scratch"):
+          el = Element(format=name)
+          for hist in itertools.chain.from_iterable(itertools.product(checkers, repeat=n) for n in range(0, 4)):
+              format_checker._callable_register.pop(name, None)
+              for step in hist:
+                  format_checker.register(name)(checkers[step])
+              for v in ["abc", "xyz", "", 5, None, True, 1.5, ["a"], {"a": 1}]:
+                  key = f"hist={''.join(hist) or '-'} value={v!r}"
+                  acc.case(key)
+                  with warnings.catch_warnings(record=True) as wl:
+                      warnings.simplefilter("always")
+                      k, r = outcome(el, copy.deepcopy(v))
+                  nwarn = len([x for x in wl if issubclass(x.category, RuntimeWarning)])
+                  if isinstance(v, str):
+                      want_ok = checkers[hist[-1]](v) if hist else True
+                      want_warn = 0 if hist else 1
+                  else:
+                      want_ok, want_warn = True, 0
+                  if (k == "ok") != want_ok:
+                      acc.fail(key, f"verdict {k}, expected {'accept' if want_ok else 'reject'} (last registered checker decides; non-strings never rejected)")
+                  if nwarn != want_warn and isinstance(v, str):
+                      acc.fail(key, f"{nwarn} warning(s), expected {want_warn}")
+                  if not isinstance(v, str) and nwarn:
+                      acc.fail(key, f"non-string value consulted the register ({nwarn} warnings)")
     finally:
         format_checker._callable_register.clear()
         format_checker._callable_register.update(saved)
